@@ -26,8 +26,10 @@
 (*  machines: sequence of automata [start, states, trans], items as        *)
 (*            <<r, d, la>> triples                                         *)
 (*  conflict: sequence with zero or one [state, items] records             *)
+(*  g.tsorted (optional): the terminal names in the code's name order, for *)
+(*            the exact-numbering judgement `canon` (Numbering.tla)        *)
 (***************************************************************************)
-EXTENDS LR1, Json, IOUtils, Integers
+EXTENDS LR1, Json, IOUtils, Integers, Numbering
 
 Obs == ndJsonDeserialize(IOEnv.OBS)
 
@@ -65,11 +67,18 @@ Judge(r) ==
                            ELSE IF ~Genuine(G, M.states[c.state + 1], ItemOf(c.items[1]), ItemOf(c.items[2]))
                            THEN [ok |-> FALSE, why |-> "C11: reported items are not two items of the reported state demanding different actions on one lookahead"]
                            ELSE [ok |-> TRUE, why |-> ""]]
+      \* Numbering.tla: the attached / used automaton is THE normal form (states in content order).  Not part of `ok`:
+      \* C17 and C11 speak "up to renumbering", a different numbering is conformance drift
+      canon == IF "tsorted" \in DOMAIN r.g /\ (\A k \in DOMAIN machineChecks : machineChecks[k].ok)
+               THEN LET tr == [t \in SeqRange(r.g.tsorted) |-> CHOOSE k \in DOMAIN r.g.tsorted : r.g.tsorted[k] = t]
+                        CM == CanonMachine(C, LS, tr)
+                    IN \A k \in DOMAIN r.machines : MachineOf(r.machines[k]) = CM
+               ELSE TRUE
       all == <<verdictCheck>> \o conflictChecks \o machineChecks \o (IF r.verdict = "ok" THEN tableChecks ELSE <<>>)
       res == FirstBad(all)
       bad == SelectSeq(all, LAMBDA c : ~c.ok)
   IN [id |-> r.id, ok |-> res.ok, why |-> res.why, whys |-> [k \in DOMAIN bad |-> bad[k].why], cf |-> cf,
-      nlalr |-> Cardinality(LS), ncanon |-> Cardinality(CC),
+      canon |-> canon, nlalr |-> Cardinality(LS), ncanon |-> Cardinality(CC),
       classes |-> ConflictClasses(G, LS)]
 
 VARIABLE l
